@@ -59,7 +59,7 @@ def sizes(fi):
     return N, M
 
 
-def check_typestate(R, prog, fi):
+def _shape_typestate(R, prog, fi):
     N, M = sizes(fi)
     specs = {
         "polarity_flips": ("SIGNS", N, None),
@@ -223,7 +223,7 @@ def validated(orelse, p, tag, size, first):
 
 
 # ----------------------------------------------------------------------------
-def check_table(R, prog, fi):
+def _shape_table(R, prog, fi):
     N, M = sizes(fi)
     fpar = fi.params[0]
     stmts = stmts_in(fi.node)
@@ -389,3 +389,190 @@ def fold_switch(fi, arg, params, dest):
         if got != ("fixed" if getattr(ns, dest) else "shuffle"):
             return False
     return True
+
+
+# ----------------------------------------------------------------------------
+_SEM = {}
+
+
+def shuffle_verdict(prog):
+    if id(prog) not in _SEM:
+        _SEM[id(prog)] = semantic_shuffle(prog)
+    return _SEM[id(prog)]
+
+
+def check_typestate(R, prog, fi):
+    from ._shared import with_semantics
+    with_semantics(R, R.prop, lambda T: _shape_typestate(T, prog, fi), shuffle_verdict(prog),
+                   "Shuffle is the signed renaming / clause permutation its arguments describe", fi, rule="SHUFFLE-SEMANTICS")
+
+
+def check_table(R, prog, fi):
+    from ._shared import with_semantics
+    v = shuffle_verdict(prog)
+    with_semantics(R, R.prop, lambda T: _shape_table(T, prog, fi), (v[0] if v[0] is not False else None, v[1]),     # a refutation is reported once, by check_typestate
+                   "Shuffle literal table and emission loop", fi, rule="SHUFFLE-SEMANTICS")
+
+
+def semantic_shuffle(prog):
+    """fold the whole of Shuffle over stand-in formulas (0..3 variables, 0..3 clauses) for every combination of 'fixed' / 'shuffle' (a
+    scripted stand-in for the random module) / explicit valid / explicit invalid arguments.  The result must be a new formula that
+    declares N variables, whose clause S[i] is clause i of the input with every literal l replaced by sign(l)*flip[|l|]*perm[|l|], whose
+    header is the input's plus one 'transformation k' entry under the first free k; every invalid explicit argument (exhaustively: all
+    vectors over -2..2 resp. 0..N+1 of lengths N-1..N+1 that are not sign vectors / permutations) must be refused with ValueError; the
+    input is left untouched.  -> (True | False | None, detail)"""
+    import copy as _copy
+    import itertools
+    import types
+    from ..fold import Folder, Raised
+    from ..ql import Unknown
+    fi = prog.func(MOD, "Shuffle")
+    if fi.params[:4] != ["F", "polarity_flips", "variables_permutation", "clauses_permutation"]:
+        return None, "Shuffle has another signature"
+
+    class FakeCNF:
+        def __init__(self):
+            self.header, self.n, self.cl = {}, 0, []
+
+        def update_variable_number(self, n):
+            self.n = max(self.n, n)
+
+        def add_clause(self, c, check=True):
+            c = list(c)
+            self.cl.append(c)
+            if check:
+                self.n = max([self.n] + [abs(l) for l in c])
+
+        def number_of_clauses(self):
+            return len(self.cl)
+
+        def number_of_variables(self):
+            return self.n
+
+        def __len__(self):
+            return len(self.cl)
+
+        def __getitem__(self, i):
+            return list(self.cl[i])
+
+        def __iter__(self):
+            return iter([list(c) for c in self.cl])
+
+        def clauses(self):
+            return [list(c) for c in self.cl]
+
+    class Script:
+        """stand-in for the random module: choice must be asked for a sign, shuffle for a permutation of the expected range"""
+        def __init__(self, signs, perms):
+            self.signs, self.perms, self.bad = list(signs), perms, None
+
+        def choice(self, seq):
+            if sorted(set(seq)) != [-1, 1]:
+                self.bad = "random.choice is asked to choose from %r, not from the two signs" % (list(seq),)
+            return self.signs.pop(0) if self.signs else 1
+
+        def shuffle(self, lst):
+            key = tuple(sorted(lst))
+            if key not in self.perms:
+                self.bad = "random.shuffle is applied to %r, which is not the range to be permuted" % (lst,)
+                return
+            lst[:] = self.perms[key]
+
+        def __getattr__(self, name):
+            raise Unknown("random.%s is not modelled" % name)
+
+    def formulas():
+        yield 0, [], {}
+        yield 0, [[]], {"description": "d"}
+        yield 1, [[1], [-1]], {"description": "d", "transformation 1": "t"}
+        yield 2, [[1, -2], [2], []], {"transformation 2": "t"}
+        yield 3, [[1, 2], [-1, -2], [2, -1]], {"description": "d", "transformation 1": "a", "transformation 2": "b"}     # variable 3 in no clause
+        yield 3, [[3, -1, 2]], {}
+    n_checked = 0
+    for N, clauses, header in formulas():
+        M = len(clauses)
+
+        def fresh():
+            F0 = FakeCNF()
+            F0.header, F0.n, F0.cl = dict(header), N, [list(c) for c in clauses]
+            return F0
+        idv, idc = list(range(1, N + 1)), list(range(M))
+        vperm = idv[1:] + idv[:1]
+        cperm = idc[1:] + idc[:1]
+        sflip = [(-1) ** (i + 1) for i in range(N)]
+        valid = {
+            "polarity_flips": [("fixed", [1] * N), ("shuffle", [-1] * N if N else []), (list(sflip), sflip), (tuple(sflip), sflip)],
+            "variables_permutation": [("fixed", idv), ("shuffle", idv[::-1]), (list(vperm), vperm), (tuple(vperm), vperm)],
+            "clauses_permutation": [("fixed", idc), ("shuffle", idc[::-1]), (list(cperm), cperm)],
+        }
+        invalid = {"polarity_flips": [], "variables_permutation": [], "clauses_permutation": []}
+        for v in itertools.product([-2, -1, 0, 1, 2], repeat=N):
+            if not all(abs(x) == 1 for x in v):
+                invalid["polarity_flips"].append(list(v))
+        for v in itertools.product(range(0, N + 2), repeat=N):
+            if sorted(v) != idv:
+                invalid["variables_permutation"].append(list(v))
+        for v in itertools.product(range(-1, M + 1), repeat=M):
+            if sorted(v) != idc:
+                invalid["clauses_permutation"].append(list(v))
+        # wrong lengths: otherwise plausible vectors
+        invalid["polarity_flips"] += [[1] * (N + 1), [-1] * (N + 2)] + ([[1] * (N - 1)] if N else [])
+        invalid["variables_permutation"] += [list(range(1, N + 2)), list(range(1, N + 3))] + ([list(range(1, N))] if N else [])
+        invalid["clauses_permutation"] += [list(range(M + 1)), list(range(M + 2))] + ([list(range(M - 1))] if M else [])
+
+        def fold(pf, vp, cp):
+            F0 = fresh()
+            rnd = Script([-1] * N, {tuple(idv): idv[::-1], tuple(idc): idc[::-1]})
+            f = Folder(env={}, fuel=200000)
+            f.globals = {"CNF": FakeCNF, "copy": _copy.copy, "deepcopy": _copy.deepcopy, "random": rnd}
+            out = f.call_function(fi.node, [F0, pf, vp, cp], {})
+            return F0, out, rnd
+        for (pf, flips), (vp, perm), (cp, cmap) in itertools.product(valid["polarity_flips"], valid["variables_permutation"], valid["clauses_permutation"]):
+            what = "Shuffle(F, %r, %r, %r) on %d variables, clauses %s" % (pf, vp, cp, N, clauses)
+            try:
+                F0, out, rnd = fold(pf, vp, cp)
+            except Raised as r:
+                return False, "%s raises %s" % (what, r.cls)
+            except Unknown as e:
+                return None, "cannot fold Shuffle: %s" % e
+            if rnd.bad:
+                return False, "%s: %s" % (what, rnd.bad)
+            if not isinstance(out, FakeCNF) or out is F0:
+                return False, "%s does not return a new formula" % what
+            if F0.cl != clauses or F0.header != header or F0.n != N:
+                return False, "%s modifies its input" % what
+            want = [None] * M
+            for i, c in enumerate(clauses):
+                want[cmap[i]] = sorted((1 if l > 0 else -1) * flips[abs(l) - 1] * perm[abs(l) - 1] for l in c)
+            if [sorted(c) for c in out.cl] != want:
+                return False, ("%s: the clauses are %s; with flips %s, variable images %s and clause i sent to position %s[i] they must be %s"
+                               % (what, out.cl, flips, perm, cmap, want))
+            if out.n != N:
+                return False, "%s declares %d variables instead of %d" % (what, out.n, N)
+            k = 1
+            while "transformation %d" % k in header:
+                k += 1
+            extra = {kk: v for kk, v in out.header.items() if kk not in header}
+            if sorted(extra) != ["transformation %d" % k]:
+                return False, "%s: the header gains the entries %s; it must gain exactly 'transformation %d'" % (what, sorted(extra), k)
+            for kk, v in header.items():
+                if kk not in out.header or (out.header[kk] != v and kk != "description"):
+                    return False, "%s: header entry %r of the input is lost or changed" % (what, kk)
+            n_checked += 1
+        for pname, idx in (("polarity_flips", 0), ("variables_permutation", 1), ("clauses_permutation", 2)):
+            for j, v in enumerate(invalid[pname]):
+                for wrap in ((list, tuple) if j % 7 == 0 else (list,)):
+                    a = ["fixed", "fixed", "fixed"]
+                    a[idx] = wrap(v)
+                    what = "Shuffle(F, %r, %r, %r) on %d variables and %d clauses" % (a[0], a[1], a[2], N, M)
+                    try:
+                        fold(*a)
+                    except Raised as r:
+                        if r.cls != "ValueError":
+                            return False, "%s raises %s: an argument that is not %s must be refused with ValueError" % (what, r.cls, pname)
+                        n_checked += 1
+                        continue
+                    except Unknown as e:
+                        return None, "cannot fold Shuffle: %s" % e
+                    return False, "%s is accepted although %s=%r is not valid" % (what, pname, v)
+    return True, "%d (formula, arguments) instances folded: result compared with the signed renaming / clause permutation, invalid arguments refused" % n_checked
